@@ -74,6 +74,7 @@ func c12CollectFull(a *Agent) ([]c12Row, []c12Entry) {
 					r.count += mv.Value.Count()
 					r.sum += mv.Value.ValueSum
 					r.set = r.set || mv.Value.ValueSet
+					r.nonFinite = r.nonFinite || c12NonFinite(&mv.Value)
 					if always || mv.Value.Count() != 0 || mv.Value.ValueSet {
 						entries = append(entries, c12Entry{id: c12EntryID(b, it, top), count: mv.Value.Count(), sum: mv.Value.ValueSum})
 					}
